@@ -377,6 +377,41 @@ func (t *taintCtx) upperBoundedAt(chain []ssa.Value, b *ssa.BasicBlock, depth in
 				}
 			}
 		}
+		// result of a module function: bounded at every return of the callee
+		if depth < 3 {
+			var call *ssa.Call
+			idx := 0
+			switch x := u.(type) {
+			case *ssa.Extract:
+				call, _ = x.Tuple.(*ssa.Call)
+				idx = x.Index
+			case *ssa.Call:
+				call = x
+			}
+			if call != nil {
+				if sc := call.Common().StaticCallee(); sc != nil && len(sc.Blocks) > 0 && InModule(sc) {
+					all, nRet, why := true, 0, ""
+					for _, rb := range sc.Blocks {
+						ret, ok := rb.Instrs[len(rb.Instrs)-1].(*ssa.Return)
+						if !ok || idx >= len(ret.Results) {
+							continue
+						}
+						nRet++
+						ok2, w := t.upperBoundedAt(monotoneChain(ret.Results[idx]), rb, depth+1)
+						if !ok2 {
+							all = false
+							break
+						}
+						if w != "constant" {
+							why = w
+						}
+					}
+					if all && nRet > 0 {
+						return true, fmt.Sprintf("result of %s, bounded at each of its %d returns: %s", FnName(sc), nRet, why)
+					}
+				}
+			}
+		}
 		// parameter: every caller must pass a bounded value
 		if prm, ok := u.(*ssa.Parameter); ok && depth < 3 {
 			fn := prm.Parent()
